@@ -206,6 +206,10 @@ def _search():
     return _CACHE['r']
 
 
+def native_witness(ctx):
+    return _search()
+
+
 def build(ctx):
     eng = SegEngine(ctx, aenter_contract())
     eng.replayer = lambda model, obl: _search()
